@@ -15,7 +15,7 @@ RELS = ['same', 'opposite', 'different', 'id-id', 'id-point']
 
 
 def cases(tier, seed):
-    reps = 3 if tier == 'quick' else 1200
+    reps = 15 if tier == 'quick' else 1200
     out = []
     for _ in range(reps):
         for which in (1, 2):
